@@ -2,6 +2,8 @@ import LachesisVerif.Model.Orderer
 import LachesisVerif.Props.C11
 import LachesisVerif.Proofs.ElectionInv
 import LachesisVerif.Proofs.ElectionL4
+import LachesisVerif.Proofs.ElectionSingle
+import LachesisVerif.Proofs.ElectionComplete
 /-!
 # C10 — Consensus output matches an independent reference implementation
 
@@ -13,13 +15,37 @@ vote with the weighted majority of the previous-frame roots they forkless-cause 
 yes) and decide once one side holds a quorum. The Atropos is the root voted for by the first
 validator, in canonical order, that is decided yes while all validators before it are decided no."
 
-Status: PARTIAL proof. Proved below, about the implementation-level model `Model.Election` /
-`Model.Orderer` (kernels regenerated from abft/election and abft/event_processing.go):
-the Atropos choice rule, the vote rule (tie = yes, decision on quorum), the round arithmetic, and
-L1 (two quorums share a validator that never forks when forkers hold < 1/3). NOT proved: the
-induction L2–L5 of DESIGN §5 that lifts these to "model blocks = reference blocks" for whole
-histories. That equality is checked three ways (real code = this model = reference
-`Spec.Lachesis`) on every scenario of the `cons` stream.
+Status: PARTIAL proof. Proved below:
+
+* about the implementation-level model `Model.Election` / `Model.Orderer` (kernels regenerated from
+  abft/election and abft/event_processing.go): the Atropos choice rule (`chooseAtropos_spec`), the vote
+  rule (`vote_rule`: tie = yes, decision on quorum), the round arithmetic (`round_rule`), and the
+  invariants of any run of `processRoot` from `reset` (`election_invariants`,
+  `election_no_early_decision`, `election_atropos_is_slot_root`): yes-votes name a root of the frame
+  to decide in the subject's slot, decisions are written only in rounds ≥ 2 and at most once per
+  subject, the returned frame is `frameToDecide`;
+* about the graph-level rules (`Spec/ElectionRules.lean`: `FC` = C05's `FCSpec`, `IsRoot`, the frame
+  rule `Allowed`, `voteYes` by recursion on the round, `DecidesYes/No`, `IsAtropos`, `Forker`, `BFT`):
+  L1 (`L1_quorums_share_honest` on masks, `L1_graph` on the graph definitions), L2
+  (`L2_one_root_per_slot`: under `Valid`, `FramesAccepted`, `BFT` two different roots of one slot are
+  never both forkless-caused), L4 (`L4_decision_is_final`: a decision fixes all later votes and
+  excludes the opposite decision), `atropos_unique`;
+* the tie between the two (`C10_single_election_partial`, `C10_single_election_BFT`,
+  `C10_processRoot_refines`): one election of the model, fed roots in any closed order with
+  `observe` = `FC` and `frameRoots` = the roots by frame, stores exactly the votes `voteYes` and
+  decisions of the rules, reaches none of the error branches two-fork-roots / missing-vote /
+  not-enough-votes, reports "all decided no" only if the rules decide every validator no, and a
+  returned Atropos is `IsAtropos`; conversely (`C10_single_election_complete`) every decision the
+  rules derive from a fed root is stored, and (`C10_single_election_same_result`) any other closed
+  feed containing the same roots returns the same Atropos.
+
+NOT proved: L3 (votes are stable when the history grows), L5 (the invariant that `handleElection` +
+`bootstrapElection` maintain across decisions, lifting the single election to whole `Orderer` runs
+and epochs, i.e. "model blocks = reference blocks"), L6 (not every subject is decided no), and the equivalence of the executable reference
+`Spec/Lachesis.lean` with the Prop-level rules of `Spec/ElectionRules.lean`. That the accepted
+frames and the forkless-cause index of the real code are the graph ones is C04 / C05. The equality
+"real code = this model = reference `Spec.Lachesis`" is checked three ways on every scenario of the
+`cons` stream.
 -/
 namespace C10
 open Model.Pos Model.Election
@@ -272,6 +298,93 @@ example : Valid exNet.nVals exNet.h ∧ exNet.FramesAccepted ∧ exNet.BFT := by
       rfl
     rw [h0, h1]; decide
 end Graph
+
+/-! ### (5) the single-election refinement -/
+section Refinement
+open ElectionRules VecProofs ElectionRefine ElectionProofs
+open Classical
+
+/-- `C10_single_election_partial`. One election (frame `f` to decide) of the implementation-level
+    model, started from `reset` and fed roots by `runRoots` (= the loop of `processKnownRoots`, see
+    `knownRootsFrame_eq`; it stops at the first returned Atropos), under `Setup`:
+    validators in canonical numbering with the weights of the graph `N` and a total ≤ 2^31-1;
+    `observe` = the graph forkless cause `N.FC` (C05's `FCSpec`); `frameRoots g` = exactly the roots
+    of frame `g` (once each, labelled with their creator); creators are validators; accepted frames
+    obey the frame rule; slot uniqueness (`N.SlotUnique` — the conclusion of L2, see
+    `C10_single_election_BFT` where it is discharged from BFT); `f < 2^32`.
+    `FeedClosed`: every fed root is a root with frame `< 2^32` and the roots of the previous frame it
+    forkless-causes were fed before it (true for any frame-ascending complete order:
+    `feedClosed_of_ascending`, and for the arrival order of `handleElection`).
+    Then: no error branch (`two-fork-roots`, `missing-vote`, `not-enough-votes`) is ever reached; the
+    only possible error is "all decided no", and then every validator is decided no by the rules;
+    otherwise the final state is sound (`JS`): every stored vote `((r, s), vote)` satisfies
+    `vote.yes ↔ N.voteYes f (r.frame - f) r.id s`, yes-votes carry the unique candidate root of the
+    subject, every stored decision is `N.DecidedYes` / `N.DecidedNo`; and a returned result `(f', a)`
+    has `f' = f` and `N.IsAtropos f a`.
+    The converse is `C10_single_election_complete` / `C10_single_election_same_result`.
+    NOT proved here (hence `_partial`): the lifting from one election to whole `Orderer` runs with
+    restarts of the election after each decision (L5), L3 and L6. -/
+theorem C10_single_election_partial (N : Net) (vals : Vals) (f : Nat) (observe : Nat → Nat → Bool)
+    (frameRoots : Nat → List Root) (S : Setup N vals f observe frameRoots) (rs : List Root)
+    (hfc : FeedClosed observe frameRoots f [] rs) :
+    (runRoots observe frameRoots (reset vals f) rs = .error .allNo ∧ ∀ v, v < N.nVals → N.DecidedNo f v) ∨
+    (∃ el' res, runRoots observe frameRoots (reset vals f) rs = .ok (el', res) ∧ JS N vals f frameRoots el' ∧
+      ∀ f' a, res = some (f', a) → f' = f ∧ N.IsAtropos f a) :=
+  single_election S rs hfc
+
+/-- The same with slot uniqueness discharged by L2: for every valid history with accepted frames,
+    forkers below one third and total weight ≤ 2^31-1, with the canonical oracles (`observe` = `N.FC`,
+    `frameRoots` = `rootsOf N`), every closed feed refines the rules. In particular the hypotheses
+    `Setup` are satisfiable for every such history (non-vacuity; `exNet` above is one). -/
+theorem C10_single_election_BFT (N : Net) (f : Nat) (hv : Valid N.nVals N.h) (hfa : N.FramesAccepted)
+    (hbft : N.BFT) (htot : N.total ≤ 2147483647) (hf : f < 4294967296) (rs : List Root)
+    (hfc : FeedClosed (fun a b => decide (N.FC a b)) (rootsOf N) f [] rs) :
+    (runRoots (fun a b => decide (N.FC a b)) (rootsOf N) (reset (canonVals N) f) rs = .error .allNo ∧
+      ∀ v, v < N.nVals → N.DecidedNo f v) ∨
+    (∃ el' res, runRoots (fun a b => decide (N.FC a b)) (rootsOf N) (reset (canonVals N) f) rs = .ok (el', res) ∧
+      JS N (canonVals N) f (rootsOf N) el' ∧ ∀ f' a, res = some (f', a) → f' = f ∧ N.IsAtropos f a) :=
+  single_election (setup_exists N f hv hfa hbft htot hf) rs hfc
+
+/-- every single `processRoot` call on a sound state, the step behind the theorem above -/
+theorem C10_processRoot_refines (N : Net) (vals : Vals) (f : Nat) (observe : Nat → Nat → Bool)
+    (frameRoots : Nat → List Root) (S : Setup N vals f observe frameRoots) (el : Election)
+    (js : JS N vals f frameRoots el) (fed : List Root) (hst : Stored f fed el) (nr : Root)
+    (hroot : nr ∈ frameRoots nr.frame) (hb : nr.frame < 4294967296)
+    (hclosed : ∀ p ∈ frameRoots (nr.frame - 1), f < p.frame → observe nr.id p.id = true → p ∈ fed) :
+    (processRoot observe frameRoots el nr = .error .allNo ∧ ∀ v, v < N.nVals → N.DecidedNo f v) ∨
+    (∃ el' res, processRoot observe frameRoots el nr = .ok (el', res) ∧ JS N vals f frameRoots el' ∧
+      (res = none → Stored f (nr :: fed) el') ∧ (∀ f' a, res = some (f', a) → f' = f ∧ N.IsAtropos f a)) :=
+  processRoot_refines S js fed hst nr hroot hb hclosed
+
+/-- The converse side: along any closed feed every decision that the rules derive from a fed root is
+    stored (`Complete`), stored votes belong to fed roots and decided entries are decided stored votes
+    (`JC`); after a run that returned nothing, `chooseAtropos` of the final state is "undecided". -/
+theorem C10_single_election_complete (N : Net) (vals : Vals) (f : Nat) (observe : Nat → Nat → Bool)
+    (frameRoots : Nat → List Root) (S : Setup N vals f observe frameRoots) (rs : List Root)
+    (hfc : FeedClosed observe frameRoots f [] rs) (hne : rs ≠ []) (el' : Election) (res : Option (Nat × Nat))
+    (h : runRoots observe frameRoots (reset vals f) rs = .ok (el', res)) :
+    JC N f (rs.reverse ++ []) el' ∧ chooseAtropos el' = .ok res ∧
+    (res = none → Complete N f (rs.reverse ++ []) el') := by
+  obtain ⟨a, b, c⟩ := runRoots_complete S rs [] (reset vals f) (JS_reset N vals f frameRoots)
+    (by intro r hr; cases hr) (JC_reset N vals f) (by intro r hr; cases hr) hfc (fun h => absurd h hne) el' res h
+  exact ⟨a, b hne, fun h => (c h).1⟩
+
+/-- Hence one election is independent of the feeding order: if some closed feed `rs₁` makes the model
+    return `b`, every closed feed `rs₂` (other oracles for the same graph, other order) that contains
+    the roots of `rs₁` of frames above `f` returns the same `b` — neither nothing nor an error. -/
+theorem C10_single_election_same_result (N : Net) (f : Nat) (vals₁ vals₂ : Vals)
+    (observe₁ observe₂ : Nat → Nat → Bool) (frameRoots₁ frameRoots₂ : Nat → List Root)
+    (S₁ : Setup N vals₁ f observe₁ frameRoots₁) (S₂ : Setup N vals₂ f observe₂ frameRoots₂) (rs₁ rs₂ : List Root)
+    (hfc₁ : FeedClosed observe₁ frameRoots₁ f [] rs₁) (hfc₂ : FeedClosed observe₂ frameRoots₂ f [] rs₂)
+    (hsub : ∀ r ∈ rs₁, f < r.frame → r ∈ rs₂) (el₁ : Election) (b : Nat × Nat)
+    (h₁ : runRoots observe₁ frameRoots₁ (reset vals₁ f) rs₁ = .ok (el₁, some b)) :
+    ∃ el₂, runRoots observe₂ frameRoots₂ (reset vals₂ f) rs₂ = .ok (el₂, some b) :=
+  same_result S₁ S₂ rs₁ rs₂ hfc₁ hfc₂ hsub el₁ b h₁
+
+/-- non-vacuity: the hypotheses of `C10_single_election_BFT` hold for `exNet` and the empty feed -/
+example : ∃ el', runRoots (fun a b => decide (exNet.FC a b)) (rootsOf exNet) (reset (canonVals exNet) 1) [] = .ok (el', none) :=
+  ⟨_, rfl⟩
+end Refinement
 
 /-! ### non-vacuity -/
 def exampleElection : Election :=
